@@ -230,7 +230,7 @@ def run(ch, render=False):
                 step = (1, 2)[ch.draw(2, "seq")]
                 dlen = 3
             else:
-                step = ch.weighted([(8, 1), (2, 2), (1, 0), (1, 16383), (1, 5000)], "seq")
+                step = ch.weighted([(16, 1), (4, 2), (2, 0), (2, 16383), (2, 5000), (1, 8193), (1, 8191), (1, 4097), (1, 12289)], "seq")     # (steps that are 1 modulo a smaller power of two: a narrower modulus accepts them)
                 dlen = ch.weighted([(4, 3), (2, 1), (2, 9), (1, 2), (1, 40)], "dlen")
             counters[ai] = (counters[ai] + step) % 16384
             deliver(apids[ai], flag, counters[ai], dlen)
